@@ -96,7 +96,13 @@ pub fn gen_bc(rng: &mut Rng, trail: &[usize], allow_periodic: bool) -> Bc {
         _ => {
             let mut shape = vec![1];
             shape.extend_from_slice(trail);
-            Bc::Individual((0..lanes).map(|_| gen_rowbc(rng)).collect(), shape)
+            // one time in three every lane is a Mixed row (same variant, different payloads): lanes must still
+            // get their OWN conditions
+            if rng.chance(1, 3) {
+                Bc::Individual((0..lanes).map(|_| RowBc::Mixed(gen_single(rng), gen_single(rng))).collect(), shape)
+            } else {
+                Bc::Individual((0..lanes).map(|_| gen_rowbc(rng)).collect(), shape)
+            }
         }
     }
 }
